@@ -28,6 +28,7 @@ type Expect struct {
 	Val     *probe.D
 	Events  []probe.DE
 	Static  string // expected static result type of a getter ("" = not judged)
+	SPkg    string // expected package path of that type ("-" = not judged)
 	Counts  map[string]int
 	Tainted bool
 	Missing bool // getter must not exist
@@ -152,10 +153,15 @@ func RunModel(conf *cfg.Config, ops []probe.Op, env map[string]string) []Expect 
 				e.Panic = true
 			}
 			t := "interface {}"
+			e.SPkg = "-"
 			if s.Type != nil {
 				r := it.Im.ParseType(*s.Type)
 				t = ""
 				if it.KnownPkg(r.Pkg) {
+					e.SPkg = r.Pkg
+					if r.Pkg == "" {
+						e.SPkg = "." // the generated package itself
+					}
 					t = it.TypeName(r.Pkg, r.Sym)
 					if r.Ptr {
 						t = "*" + t
@@ -317,6 +323,18 @@ func CompareHistory(u *probe.Unit, exp []Expect, skipTainted bool) (mm []Mismatc
 		if e.Static != "" && r.Static != "" && e.Static != r.Static {
 			mm = append(mm, Mismatch{i, "signature", fmt.Sprintf("%s: signature %q, expected %q", label, r.Static, e.Static)})
 		}
+		if e.SPkg != "" && e.SPkg != "-" && r.Static != "" {
+			want := e.SPkg
+			if want == "." {
+				want = "fixt/gen/" + u.ID
+				if u.PkgName() == "main" {
+					want = "main"
+				}
+			}
+			if r.SPkg != want {
+				mm = append(mm, Mismatch{i, "type-package", fmt.Sprintf("%s: result type comes from package %q, expected %q", label, r.SPkg, want)})
+			}
+		}
 		if e.Panic {
 			if r.Panic == "" {
 				mm = append(mm, Mismatch{i, "no-panic", label + ": expected a panic, got none"})
@@ -332,7 +350,8 @@ func CompareHistory(u *probe.Unit, exp []Expect, skipTainted bool) (mm []Mismatc
 				mm = append(mm, Mismatch{i, "no-error", fmt.Sprintf("%s: expected an error (%s), got a value: %s", label, e.Err.Why, ref.JSON(r.Val))})
 				return
 			}
-			if r.Val != nil {
+			// a getter of a non-nillable type has to return its zero value next to the error: only Get-like calls are judged
+			if r.Val != nil && op.Op != "getter" && op.Op != "getterctx" {
 				mm = append(mm, Mismatch{i, "error-with-value", fmt.Sprintf("%s: error %q came together with a value %s", label, r.Err, ref.JSON(r.Val))})
 			}
 			for _, s := range e.Err.Contains {
